@@ -26,7 +26,7 @@ def floors(tier):
     q = tier == "quick"
     return {"evaluations": 250 if q else 4000, "distinct_nontrivial": 80 if q else 1500, "rotations": 1500 if q else 25000,
             "kind:corpus": 10 if q else 80, "kind:synth": 120 if q else 2000, "kind:stl": 60 if q else 1000, "kind:curated": 40 if q else 600,
-            "kernels_with_cycles": 150 if q else 2500}
+            "kernels_with_cycles": 150 if q else 2500, "kind:long": 3 if q else 30}
 
 
 def plan(tier, seed):
@@ -38,6 +38,9 @@ def plan(tier, seed):
         specs.append({"kind": "synth", "isa": "x86" if i % 2 == 0 else "aarch64", "models": 5 if q else 20, "kernels": 5})
     for a in (["zen2", "zen1", "tx2", "n1"] if q else isolate.arch_models()):
         specs.append({"kind": "curated", "arch": a, "kernels": 25 if q else 120})
+    # kernels of 50 and more lines take the multi-process search: rotations that put each dependency-carrying line last
+    for i in range(4 if q else 24):
+        specs.append({"kind": "long", "isa": "x86" if i % 2 == 0 else "aarch64", "kernels": 1 if q else 2})
     return specs
 
 
@@ -55,16 +58,16 @@ def lcd_set(isa, path, ipath, arch, lines, rot, flags):
     return out
 
 
-def check_rotations(kind, isa, path, ipath, arch, lines, flags, R, case):
+def check_rotations(kind, isa, path, ipath, arch, lines, flags, R, case, offsets=None):
     n = len(lines)
     try:
-        with time_limit(240):
+        with time_limit(240 if offsets is None else 900):
             base = lcd_set(isa, path, ipath, arch, lines, 0, flags)
             if base is None:
                 R.count("gate:line-count")
                 R.case()
                 return
-            for r in range(1, n):
+            for r in (range(1, n) if offsets is None else offsets):
                 got = lcd_set(isa, path, ipath, arch, lines, r, flags)
                 R.count("rotations")
                 if got != base:
@@ -148,6 +151,33 @@ def gen_case(isa, vocab, path, ipath, arch, mseed, kseed, R):
     check_rotations(kind, isa, path, ipath, arch, lines, flags, R, case)
 
 
+def run_long(spec, R):
+    from osaca.semantics import MachineModel
+    from . import c16
+
+    rng = random.Random(spec["seed"])
+    isa = spec["isa"]
+    with gen_model.ScratchDir("c14l") as d:
+        for k in range(spec["kernels"]):
+            mseed = rng.getrandbits(48)
+            mrng = random.Random(mseed)
+            m, isa_db, vocab = D.dep_model(mrng, isa)
+            path, ipath = os.path.join(d, "m%d.yml" % k), os.path.join(d, "i%d.yml" % k)
+            open(path, "w").write(gen_model.model_yaml(m))
+            open(ipath, "w").write(gen_model.model_yaml(isa_db))
+            kseed = mrng.getrandbits(48)
+            krng = random.Random(kseed)
+            lines = c16.make_kernel(krng, isa, vocab, krng.choice([50, 52, 57, 64]))
+            n = len(lines)
+            core = [i for i, l in enumerate(lines) if not l.startswith("fw0a")]
+            # every rotation that leaves a dependency-carrying line last, plus a few others
+            offsets = sorted(set([(i + 1) % n for i in core] + [krng.randrange(1, n) for _ in range(4)]) - {0})
+            case = {"kind": "long", "gen": "long", "isa": isa, "model_seed": mseed, "kernel_seed": kseed, "kernel": "\n".join(lines), "flags": False}
+            check_rotations("long", isa, path, ipath, None, lines, False, R, case, offsets=offsets)
+            MachineModel._runtime_cache.pop(path, None)
+            MachineModel._runtime_cache.pop(ipath, None)
+
+
 def run_curated(spec, R):
     arch = spec["arch"]
     isa = isolate.isa_of(arch)
@@ -158,7 +188,7 @@ def run_curated(spec, R):
 
 
 def run_shard(spec, R):
-    {"corpus": run_corpus, "synth": run_synth, "curated": run_curated}[spec["kind"]](spec, R)
+    {"corpus": run_corpus, "synth": run_synth, "curated": run_curated, "long": run_long}[spec["kind"]](spec, R)
 
 
 def replay(case, R):
@@ -166,6 +196,19 @@ def replay(case, R):
         isa = isolate.isa_of(case["arch"])
         kernel, parser = corpus.marked_kernel(case["file"], isa)
         check_rotations("corpus", isa, None, None, case["arch"], [k.line for k in kernel], False, R, case)
+    elif case.get("gen") == "long":
+        from . import c16
+
+        isa = case["isa"]
+        mrng = random.Random(case["model_seed"])
+        m, isa_db, vocab = D.dep_model(mrng, isa)
+        with gen_model.ScratchDir("c14r") as d:
+            path, ipath = os.path.join(d, "m.yml"), os.path.join(d, "i.yml")
+            open(path, "w").write(gen_model.model_yaml(m))
+            open(ipath, "w").write(gen_model.model_yaml(isa_db))
+            lines = case["kernel"].split("\n")
+            offs = [case["rotation"]] if "rotation" in case else None
+            check_rotations("long", isa, path, ipath, None, lines, False, R, case, offsets=offs or list(range(1, len(lines))))
     elif case.get("gen") == "synth":
         isa = case["isa"]
         mrng = random.Random(case["model_seed"])
